@@ -154,6 +154,18 @@ func genCsvDocH(r *tx.Rng, size int, numeric bool, dupHdr bool) csvDoc {
 				}
 			case 2:
 				cell = []string{"1.5", "-0", "2", "", "NaN", "1e3", "0.1", "+Inf"}[r.Intn(8)]
+				if r.P(1, 4) {
+					// decimals of 16 to 19 significant digits: more than a float64 holds exactly, fewer than a uint64 overflows on
+					nd := 14 + r.Intn(4)
+					frac := make([]byte, nd)
+					for j := range frac {
+						frac[j] = byte('0' + r.Intn(10))
+					}
+					cell = strconv.Itoa(r.Intn(1000)) + "." + string(frac)
+					if r.P(1, 3) {
+						cell = "-" + cell
+					}
+				}
 			case 3:
 				cell = []string{"true", "false", "1", "0", "T", "f"}[r.Intn(6)]
 			case 4:
@@ -334,6 +346,10 @@ func csvRawSection(r *tx.Rng, w *tx.W, size int, opt map[string]string) {
 	var d csvDoc
 	if r.P(1, 25) {
 		d = genCsvDocCRInQuotes(r)
+	} else if opt["faults"] == "" && r.P(1, 30) {
+		// one very long row (the buffer grows beyond several doublings) followed by a few kilobytes of short rows: what
+		// happens to the buffer after the long row matters only when much of what follows is already in it (large reads)
+		d = genLongRowDoc(r)
 	} else {
 		d = genCsvDoc(r, size, false)
 	}
@@ -404,6 +420,28 @@ func emitParseOracle(w *tx.W, cells map[string]bool) {
 }
 
 // a long document (more rows than the 1000-row resize threshold and than some row count hints)
+func genLongRowDoc(r *tx.Rng) csvDoc {
+	d := csvDoc{delim: ','}
+	d.cells = append(d.cells, []string{"a", "b"})
+	long := make([]byte, r.PickInt([]int{2050, 2500, 4097, 5000, 9000}))
+	for i := range long {
+		long[i] = "abcxyz "[r.Intn(7)]
+	}
+	at := r.Intn(3)
+	for i, n := 0, 150+r.Intn(300); i < n; i++ {
+		row := []string{strconv.Itoa(i), "s" + strconv.Itoa(i%13)}
+		if i == at {
+			row[1] = string(long)
+		}
+		d.cells = append(d.cells, row)
+	}
+	for _, row := range d.cells {
+		d.doc = append(d.doc, strings.Join(row, ",")...)
+		d.doc = append(d.doc, '\n')
+	}
+	return d
+}
+
 func genBigCsvDoc(r *tx.Rng, nrows int) csvDoc {
 	d := csvDoc{delim: ','}
 	ncols := 2 + r.Intn(2)
@@ -447,6 +485,9 @@ func csvReadSection(r *tx.Rng, w *tx.W, size int, opt map[string]string) {
 			nrows = bigHint + 1 + r.Intn(200) // the hint is an under-estimate: the pre-allocated storage is outgrown
 		}
 		d = genBigCsvDoc(r, nrows)
+	}
+	if opt["faults"] == "" && !big && r.P(1, 40) {
+		d = genLongRowDoc(r)
 	}
 	// an enum column derived from the data with a cardinality at the limit (254..257 distinct values)
 	enumCard := 0
